@@ -9,6 +9,7 @@ import (
 
 	"github.com/holiman/uint256"
 	"verifharness/internal/appdrv"
+	"verifharness/internal/evmgen"
 	"verifharness/internal/rng"
 )
 
@@ -88,7 +89,7 @@ func RunReplay(lines []string, work string, obs Observer) (*Sim, error) {
 		case "genesis":
 			seed, _ := strconv.ParseUint(kvOf(ws, "keyseed"), 10, 64)
 			nkeys, _ := strconv.Atoi(kvOf(ws, "nkeys"))
-			s = &Sim{R: rng.New(seed), Seed: seed, Work: work, ValSets: map[int64][]ValInfo{}, Time: 1700000000, Obs: obs}
+			s = &Sim{R: rng.New(seed), Seed: seed, Work: work, ValSets: map[int64][]ValInfo{}, Time: 1700000000, Obs: obs, PendingProg: map[string]evmgen.Program{}}
 			for i := 0; i < nkeys; i++ {
 				s.Keys = append(s.Keys, appdrv.NewKey(seed, i))
 			}
